@@ -230,7 +230,7 @@ fn main() {
         eprintln!("harness: the counting allocator does not see allocations");
         std::process::exit(2);
     }
-    let cases = h.tier.pick(120_000, 40_000_000);
+    let cases = h.tier.pick(600_000, 40_000_000);
     h.check(
         "c13.noalloc",
         "proptest tapes -> streams of 1-6 segments over the no-alloc fixture (valid messages incl. payload newlines, byte-mutated messages, garbage tokens, random bytes; every parameter type, responses of integers, floats incl. NaN/inf, strings, blocks, character data, tuples, heapless vectors, slices, errors; failing handlers) x response capacity in {0,1,8,64,1024} through run and x N in {1,2,8,16,32,64,256,1024} x random read schedule through process: the counting allocator must see 0 allocations inside run/process; non-trivial = a handler ran with parameters, a response was written or an error was reported",
